@@ -52,7 +52,8 @@ def run_one(pid, seed, idx, tier, replay=None, keep_choices=False):
            'nontrivial': bool(getattr(w, 'nontrivial', False)),
            'faults': dict(w.faults), 'probes': dict(w.probes), 'simtime': w.now,
            'nev': len(w.events), 'nchoices': len(ch.record), 'fault_free': w.fault_free,
-           'overrun': ch.overrun, 'wall': round(_real_perf() - t_wall, 3)}
+           'overrun': ch.overrun, 'wall': round(_real_perf() - t_wall, 3),
+           'timing_dependent': bool(getattr(w, 'timing_dependent', False))}
     if keep_choices or w.violations or status != 'ok':
         res['choices'] = ch.values()
         res['labels'] = [l for l, _ in ch.record]
@@ -82,7 +83,7 @@ def _has(res, key):
 def shrink(args):
     """Minimise a failing choice sequence while the same (class, signature) persists."""
     pid, tier, choices, key, max_runs, max_s = args
-    faulthandler.dump_traceback_later(max_s * 4 + 120, exit=True)
+    faulthandler.dump_traceback_later(max_s * 4 + 1500, exit=True)      # a single attempt may contain a timed-out call
     t0 = _real_perf()
     runs = [0]
     best = list(choices)
@@ -152,7 +153,7 @@ def shrink(args):
     final = run_one(pid, 0, -1, tier, replay=best, keep_choices=True)
     again = run_one(pid, 0, -1, tier, replay=final['choices'], keep_choices=True)
     faulthandler.cancel_dump_traceback_later()
-    ok = _has(final, key) and _has(again, key) and final['digest'] == again['digest']
+    ok = _has(final, key) and _has(again, key) and (final['digest'] == again['digest'] or final.get('timing_dependent'))
     return {'ok': ok, 'runs': runs[0], 'choices': final['choices'], 'labels': final['labels'],
             'digest': final['digest'], 'viol': final['viol'], 'sample': final['sample'], 'trace': final.get('trace'),
             'from_len': len(choices), 'to_len': len(final['choices'])}
